@@ -187,6 +187,9 @@ func (r *Repo) writeNode(n *tnode) string {
 		ch := n.children[name]
 		if ch.children != nil {
 			fmt.Fprintf(&in, "040000 tree %s\t%s\x00", r.writeNode(ch), name)
+		} else if mode, id, ok := strings.Cut(ch.blob, ":"); ok {
+			// "mode:id" — an executable (100755) or a symbolic link (120000)
+			fmt.Fprintf(&in, "%s blob %s\t%s\x00", mode, id, name)
 		} else {
 			fmt.Fprintf(&in, "100644 blob %s\t%s\x00", ch.blob, name)
 		}
@@ -194,11 +197,25 @@ func (r *Repo) writeNode(n *tnode) string {
 	return r.MustGit(in.Bytes(), "mktree", "-z")
 }
 
+// ExecPrefix / LinkPrefix mark a content string as an executable file or as the
+// target of a symbolic link (WriteFiles strips the prefix and sets the mode).
+const (
+	ExecPrefix = "\x00exec:"
+	LinkPrefix = "\x00link:"
+)
+
 // WriteFiles stores contents as blobs and returns the tree.
 func (r *Repo) WriteFiles(files map[string]string) string {
 	ids := map[string]string{}
 	for p, c := range files {
-		ids[p] = r.WriteBlob([]byte(c))
+		switch {
+		case strings.HasPrefix(c, ExecPrefix):
+			ids[p] = "100755:" + r.WriteBlob([]byte(strings.TrimPrefix(c, ExecPrefix)))
+		case strings.HasPrefix(c, LinkPrefix):
+			ids[p] = "120000:" + r.WriteBlob([]byte(strings.TrimPrefix(c, LinkPrefix)))
+		default:
+			ids[p] = r.WriteBlob([]byte(c))
+		}
 	}
 	return r.WriteTree(ids)
 }
@@ -234,7 +251,7 @@ func (r *Repo) Refs() map[string]string {
 	return m
 }
 
-// ListTree returns path -> blob id of the whole tree, read with ls-tree -z.
+// ListTree returns path -> blob id ("mode:id" for anything but a regular file) of the whole tree, read with ls-tree -z.
 func (r *Repo) ListTree(treeish string) map[string]string {
 	out, err := r.Git(nil, "ls-tree", "-r", "-z", "--full-tree", treeish)
 	if err != nil {
@@ -251,7 +268,11 @@ func (r *Repo) ListTree(treeish string) map[string]string {
 		}
 		f := strings.Fields(meta)
 		if len(f) == 3 {
-			m[name] = f[2]
+			if f[0] == "100644" {
+				m[name] = f[2]
+			} else {
+				m[name] = f[0] + ":" + f[2] // anything but a regular file carries its mode
+			}
 		}
 	}
 	return m
